@@ -351,7 +351,7 @@ def run_shard(spec, emit):
     matrix = operations_matrix()
     jobs = [m for i, m in enumerate(matrix) if i % nshards == shard]
     n_draws = 18 if tier == "quick" else 120
-    deadline = time.monotonic() + (85 if tier == "quick" else 2400)
+    deadline = time.monotonic() + (85 if tier == "quick" else 300)
     samples = 0
     session = requests.Session()
     with RecordingServer(Script()) as server:
